@@ -7,6 +7,8 @@ package mimefam
 
 import (
 	"bytes"
+	"embed"
+	ht "html/template"
 	"crypto/sha256"
 	"crypto/x509"
 	"encoding/hex"
@@ -72,6 +74,8 @@ type Prog struct {
 	// Calls: the builder calls of MsgCalls.tla. When present the message is built by executing them;
 	// Parts / Embeds / Atts then hold the message the specification expects them to leave behind.
 	Calls []string `json:"calls"`
+	// Style: "" / "with" (options at construction) or "set" (the setter methods of Msg and Part after construction)
+	Style string `json:"style"`
 	// Mw: a middleware of the caller ("attach": adds an attachment once, "body": replaces the first body part once)
 	Mw string `json:"mw"`
 }
@@ -102,6 +106,9 @@ func clipS(s string, n int) string {
 	}
 	return s
 }
+
+//go:embed embedded/embedded.bin
+var embeddedFS embed.FS
 
 var errProducer = errors.New("scripted producer failure")
 
@@ -478,13 +485,28 @@ const fixedBoundary = "b0undary-of-verif"
 func Build(p Prog, seed int64, failSlot int, failWhen string, tmpdir string) (*Built, error) {
 	rng := rand.New(rand.NewSource(seed))
 	var opts []mail.MsgOption
-	if e, ok := encNames[p.Enc]; ok {
-		opts = append(opts, mail.WithEncoding(e))
-	}
-	if p.Boundary == "fixed" {
-		opts = append(opts, mail.WithBoundary(fixedBoundary))
+	viaSetters := p.Style == "set"
+	if !viaSetters {
+		if e, ok := encNames[p.Enc]; ok {
+			opts = append(opts, mail.WithEncoding(e))
+		}
+		if p.Boundary == "fixed" {
+			opts = append(opts, mail.WithBoundary(fixedBoundary))
+		}
+	} else {
+		opts = append(opts, mail.WithCharset(mail.CharsetUTF8), mail.WithMIMEVersion(mail.MIME10))
 	}
 	m := mail.NewMsg(opts...)
+	if viaSetters { // the same configuration through the setter methods
+		if e, ok := encNames[p.Enc]; ok {
+			m.SetEncoding(e)
+		}
+		if p.Boundary == "fixed" {
+			m.SetBoundary(fixedBoundary)
+		}
+		m.SetCharset(mail.CharsetUTF8)
+		m.SetMIMEVersion(mail.MIME10)
+	}
 	b := &Built{Msg: m, HdrWant: map[string]string{}, SetErr: []string{}, Slots: []Slot{}, Broken: &Broken{}}
 	if err := m.From("sender@from.test"); err != nil {
 		return nil, err
@@ -586,14 +608,26 @@ func Build(p Prog, seed int64, failSlot int, failWhen string, tmpdir string) (*B
 			ct = mail.TypeTextHTML
 		}
 		var po []mail.PartOption
+		var later []func(*mail.Part)
 		cte := msgCte
 		if e, ok := encNames[ps.Enc]; ok {
-			po = append(po, mail.WithPartEncoding(e))
+			if viaSetters {
+				later = append(later, func(pt *mail.Part) { pt.SetEncoding(e) })
+			} else {
+				po = append(po, mail.WithPartEncoding(e))
+			}
 			cte = cteName[ps.Enc]
 		}
 		desc := Text(ps.Desc, rng)
 		if desc != "" {
-			po = append(po, mail.WithPartContentDescription(desc))
+			if viaSetters {
+				later = append(later, func(pt *mail.Part) { pt.SetDescription(desc) })
+			} else {
+				po = append(po, mail.WithPartContentDescription(desc))
+			}
+		}
+		if viaSetters {
+			po = append(po, mail.WithPartCharset(mail.CharsetUTF8))
 		}
 		fail := slot == failSlot
 		chunk, chunked := chunkSize(ps.Prod)
@@ -625,6 +659,32 @@ func Build(p Prog, seed int64, failSlot int, failWhen string, tmpdir string) (*B
 			}
 		}
 		switch {
+		case ps.Prod == "tpl" && wf == nil: // the content comes out of a template (static text, no actions)
+			var terr error
+			if ct == mail.TypeTextHTML {
+				tpl, perr := ht.New("p").Parse(string(content))
+				if perr != nil {
+					return nil, fmt.Errorf("html template: %w", perr)
+				}
+				if i == 0 {
+					terr = m.SetBodyHTMLTemplate(tpl, nil, po...)
+				} else {
+					terr = m.AddAlternativeHTMLTemplate(tpl, nil, po...)
+				}
+			} else {
+				tpl, perr := tt.New("p").Parse(string(content))
+				if perr != nil {
+					return nil, fmt.Errorf("text template: %w", perr)
+				}
+				if i == 0 {
+					terr = m.SetBodyTextTemplate(tpl, nil, po...)
+				} else {
+					terr = m.AddAlternativeTextTemplate(tpl, nil, po...)
+				}
+			}
+			if terr != nil {
+				return nil, terr
+			}
 		case i == 0 && wf == nil:
 			m.SetBodyString(ct, string(content), po...)
 		case i == 0:
@@ -633,6 +693,11 @@ func Build(p Prog, seed int64, failSlot int, failWhen string, tmpdir string) (*B
 			m.AddAlternativeString(ct, string(content), po...)
 		default:
 			m.AddAlternativeWriter(ct, wf, po...)
+		}
+		if ps := m.GetParts(); len(later) > 0 && len(ps) > 0 {
+			for _, f := range later {
+				f(ps[len(ps)-1])
+			}
 		}
 		if !ps.Del {
 			b.Slots = append(b.Slots, Slot{Kind: "part", Ctype: string(ct), Declared: true, Charset: "UTF-8", Cte: cte,
@@ -741,6 +806,24 @@ func Build(p Prog, seed int64, failSlot int, failWhen string, tmpdir string) (*B
 				err = m.EmbedFromIOFS("dir/src.bin", fsys, fo...)
 			} else {
 				err = m.AttachFromIOFS("dir/src.bin", fsys, fo...)
+			}
+		case src == "htpl": // an HTML template without actions
+			tpl, terr := ht.New("t").Parse(string(content))
+			if terr != nil {
+				return terr
+			}
+			if embed {
+				err = m.EmbedHTMLTemplate(name, tpl, nil, fo...)
+			} else {
+				err = m.AttachHTMLTemplate(name, tpl, nil, fo...)
+			}
+		case src == "embedfs": // a file of an embed.FS of the caller (its content is what the file holds)
+			content, _ = embeddedFS.ReadFile("embedded/embedded.bin")
+			fo = append(fo, mail.WithFileName(name))
+			if embed {
+				err = m.EmbedFromEmbedFS("embedded/embedded.bin", &embeddedFS, fo...)
+			} else {
+				err = m.AttachFromEmbedFS("embedded/embedded.bin", &embeddedFS, fo...)
 			}
 		case src == "tpl":
 			tpl, terr := tt.New("t").Parse("{{.}}")
@@ -1382,6 +1465,24 @@ func (rn *Runner) Run() {
 				out.Write(b)
 			}
 			_ = os.Remove(path)
+			n = int64(out.Len())
+		case "SkipMw": // the render path that skips one middleware type
+			guard(func() { n, oerr = built.Msg.WriteToSkipMiddleware(&out, "no-such-middleware") })
+		case "Sendmail": // a local sendmail binary: here a script that stores what it reads
+			script := filepath.Join(rn.TmpDir, fmt.Sprintf("sendmail-%d-%d.sh", rn.T, k))
+			spool := script + ".out"
+			if werr := os.WriteFile(script, []byte("#!/bin/sh\ncat > '"+spool+"'\n"), 0o700); werr != nil {
+				rn.Infra = werr
+				return
+			}
+			guard(func() { oerr = built.Msg.WriteToSendmailWithCommand(script) })
+			if oerr == nil && pan == "" {
+				var b []byte
+				b, oerr = os.ReadFile(spool)
+				out.Write(b)
+			}
+			_ = os.Remove(script)
+			_ = os.Remove(spool)
 			n = int64(out.Len())
 		case "TempFile":
 			var path string
